@@ -88,10 +88,12 @@ class BufferedPipe:
         """
         self._lock.acquire()
         try:
-            if self._event is not None:
-                self._event.set()
             self._buffer_frombytes(b(data))
-            self._cv.notify_all()
+            # (nothing to announce for an empty chunk: a read would still block)
+            if len(self._buffer) > 0:
+                if self._event is not None:
+                    self._event.set()
+                self._cv.notify_all()
         finally:
             self._lock.release()
 
